@@ -102,6 +102,8 @@ func NewWorld(seed int64, tr *Trace, hist int, o WorldOpts) (*World, error) {
 	if o.Chain.NumVals == 0 {
 		o.Chain.NumVals = 3
 		o.Chain.ValTokens = []int64{4_000_000_000, 2_000_000_000, 1_000_000_000}
+	} else if len(o.Chain.ValTokens) == 0 {
+		o.Chain.ValTokens = []int64{4_000_000_000, 2_000_000_000, 1_000_000_000, 500_000_000, 250_000_000, 125_000_000}[:o.Chain.NumVals]
 	}
 	o.Chain.RegisterEVM = true
 	o.Chain.RegisterOnlyFirst = o.RegisterOnlyFirst
@@ -316,7 +318,25 @@ func (w *World) SwitchReporter(s, r *Actor) PhaseResult {
 }
 
 func (w *World) RemoveSelector(by, s *Actor) PhaseResult {
-	return w.do("RemoveSelector", Rec{"who": by.Name, "sel": s.Name, "seltokens": w.ownTokens(s)},
+	args := Rec{"who": by.Name, "sel": s.Name, "seltokens": w.ownTokens(s), "repmin": Num{}, "nsel": 0, "maxsel": 0}
+	// observed before the message: the minimum of the selector's reporter, how many selectors that reporter has, the cap
+	if sl, err := w.App.ReporterKeeper.Selectors.Get(w.Ctx, s.Addr.Bytes()); err == nil {
+		if r, err := w.App.ReporterKeeper.Reporters.Get(w.Ctx, sl.Reporter); err == nil {
+			args["repmin"] = NumInt(r.MinTokensRequired)
+		}
+		n := 0
+		_ = w.App.ReporterKeeper.Selectors.Walk(w.Ctx, nil, func(_ []byte, x reportertypes.Selection) (bool, error) {
+			if string(x.Reporter) == string(sl.Reporter) {
+				n++
+			}
+			return false, nil
+		})
+		args["nsel"] = n
+	}
+	if p, err := w.App.ReporterKeeper.Params.Get(w.Ctx); err == nil {
+		args["maxsel"] = int(p.MaxSelectors)
+	}
+	return w.do("RemoveSelector", args,
 		&reportertypes.MsgRemoveSelector{AnyAddress: by.Addr.String(), SelectorAddress: s.Addr.String()})
 }
 
